@@ -337,14 +337,66 @@ def _expand_combinator(prog, root, blocks, locals_, origin, bb, none_value):
     return True
 
 
+FN_TRAIT_CALLS = ("std::ops::FnOnce::call_once", "std::ops::FnMut::call_mut", "std::ops::Fn::call")
+
+
+def callback_helpers(prog):
+    """Hand-written functions that take a callback (`impl FnOnce(..)`
+    parameter): generic plumbing such as `eval_expr_as(.., narrow, new_err)`.
+    Inlined on request (`callbacks=True`) together with the callbacks their
+    callers hand them (function items or closures), which devirtualises the
+    `narrow(v)` calls inside."""
+    memo = getattr(prog, "_callback_helpers", None)
+    if memo is not None:
+        return memo
+    out = set()
+    for g in prog.hand_fns():
+        if g.is_closure or g.from_expansion or g.generated or g.impl_trait is not None or len(g.blocks) > 80:
+            continue
+        if any(t.startswith("impl Fn") or t.startswith("&impl Fn") or t.startswith("&mut impl Fn")
+               for t in g.locals[1:g.arg_count + 1]):
+            out.add(g.path)
+    prog._callback_helpers = out
+    return out
+
+
+def _resolve_callable(prog, blocks, local, limit=10):
+    """What a local holding a callable was built from: ('fn', path) for a
+    function item, ('closure', def path) for a closure value, else None."""
+    for _ in range(limit):
+        defs = []
+        for blk in blocks:
+            for st in blk["s"]:
+                if st[0] == "=" and st[1] == [local, []]:
+                    defs.append(st[2])
+        if len(defs) != 1:
+            return None
+        rv = defs[0]
+        if rv[0] == "use":
+            o = rv[1]
+            if o[0] == "k":
+                return ("fn", o[1]["fn"]) if "fn" in o[1] else None
+            if o[1][1]:
+                return None
+            local = o[1][0]
+            continue
+        if rv[0] == "agg" and rv[1].get("k") == "closure":
+            return ("closure", rv[1].get("def"))
+        if rv[0] == "ref" and not rv[2][1]:
+            local = rv[2][0]
+            continue
+        return None
+    return None
+
+
 def view(prog, root, pick=None, depth=MAX_DEPTH, accessors=False, classifiers=False, closures=False,
-         leaves=False, combinators=False, shared=False):
+         leaves=False, combinators=False, shared=False, callbacks=False):
     """Synthetic Fn: `root` with its private helpers inlined.  `pick(call)`
     may veto individual call sites; with `accessors`, small kind-test
     accessors (`is_accessor`) are inlined as well, wherever they are called.
     Returns `root` itself when nothing was inlined."""
     key = (root.path, depth, getattr(pick, "__name__", None), accessors, classifiers, closures, leaves,
-           combinators, shared)
+           combinators, shared, callbacks)
     memo = getattr(prog, "_views", None)
     if memo is None:
         memo = prog._views = {}
@@ -365,6 +417,10 @@ def view(prog, root, pick=None, depth=MAX_DEPTH, accessors=False, classifiers=Fa
         sh = {p for p in shared_helpers(prog) if p != root.path}
         always |= sh
         helpers |= sh
+    if callbacks:
+        cb = {p for p in callback_helpers(prog) if p != root.path}
+        always |= cb
+        helpers |= cb
     if closures:
         helpers |= {g.path for g in prog.fns.values() if g.full and g.is_closure
                     and (g.root_fn().path == root.path or g.root_fn().path in helpers)}
@@ -388,6 +444,29 @@ def view(prog, root, pick=None, depth=MAX_DEPTH, accessors=False, classifiers=Fa
         if b["cleanup"] or t["k"] != "call" or "ptr" in t["callee"]:
             continue
         callee = t["callee"].get("res") or t["callee"].get("def")
+        if callbacks and callee in FN_TRAIT_CALLS and len(t["args"]) == 2 \
+                and t["args"][0][0] in ("cp", "mv") and not t["args"][0][1][1]:
+            # a call through a callback parameter of an inlined helper:
+            # resolve it to the function item or closure that was handed in
+            tgt = _resolve_callable(prog, blocks, t["args"][0][1][0])
+            g2 = prog.fns.get(tgt[1]) if tgt else None
+            if g2 is not None and g2.full and not g2.generated and len(g2.blocks) <= 60:
+                t = dict(t)
+                cal = dict(t["callee"])
+                cal.update({"res": g2.path, "res_full": g2.path, "res_kind": "item", "res_local": True,
+                            "resolved": True})
+                if tgt[0] == "fn" and t["args"][1][0] in ("cp", "mv"):
+                    tp = t["args"][1][1]
+                    cal["def"] = g2.path
+                    cal.pop("trait", None)
+                    t["args"] = [["mv", [tp[0], list(tp[1]) + [["f", i, g2.locals[1 + i], "", "", ""]]]]
+                                 for i in range(g2.arg_count)]
+                    t["argtys"] = [g2.locals[1 + i] for i in range(g2.arg_count)]
+                t["callee"] = cal
+                b["t"] = t
+                helpers.add(g2.path)
+                always.add(g2.path)
+                callee = g2.path
         if combinators and callee in COMBINATORS and len(blocks) + 3 <= MAX_BLOCKS:
             if _expand_combinator(prog, root, blocks, locals_, origin, bb, COMBINATORS[callee]):
                 inlined.append(callee)
